@@ -50,12 +50,13 @@ CFG = {
         K(1, "s", "s"),                             # two threads on one shared handle
         K(1, "s", "t", own=True),                   # two clones; try_send sees WouldBlock
         K(1, "sc", "s", own=True),                  # Clone/Drop accounting in the middle of a program
+        K(3, "mt"),                                 # capacity that is not a power of two; send_many then try_send
         K(1, "m", nodrop=(1,), stop=True),          # send_many; a handle kept alive: only stop() ends the stream
         K(1, "s", "s", nodrop=(1,), stop=True),     # two threads, one keeps the shared handle, stop() at any moment
     ],
     "thorough": [
         K(1, ""), K(1, "ss"), K(2, "st", stop=True), K(1, "s", "s"), K(1, "s", "t", own=True),
-        K(1, "sc", "s", own=True), K(1, "m", nodrop=(1,), stop=True), K(1, "s", "s", nodrop=(1,), stop=True),
+        K(1, "sc", "s", own=True), K(3, "mt"), K(1, "m", nodrop=(1,), stop=True), K(1, "s", "s", nodrop=(1,), stop=True),
         K(2, "m", "s", nodrop=(1,), stop=True),
         K(2, "ss", "ss"),                           # the design-phase calibration configuration
         K(1, "m", "t", stop=True),
@@ -698,9 +699,9 @@ def selftest():
           "NV_ConsumerBlocked": K(1, "ss")}
 
     def one(name, k, expect_violation):
-        cfg = os.path.join(vlib.SPEC, f"MC_Ring_{name}.{os.getpid()}.gen.cfg")
+        cfg = os.path.join(vlib.SPEC, f"MC_Ring_{name}_{label_of(k)}.{os.getpid()}.gen.cfg")
         write_cfg(cfg, k, invariants=name)
-        res = vlib.tlc("MC_Ring", os.path.basename(cfg), workers=2, timeout=600, tag=f"MC_Ring_{name}", heap="2g")
+        res = vlib.tlc("MC_Ring", os.path.basename(cfg), workers=2, timeout=600, tag=f"MC_Ring_{name}_{label_of(k)}", heap="2g")
         os.remove(cfg)
         hit = any(name in e for e in res["errors"])
         return name, hit == expect_violation, hit
